@@ -155,4 +155,41 @@ set_option maxRecDepth 100000 in
 example : (run exRun).ops.contains (.ftruncate 112) = true := by decide
 example : ValidCfg exRun := ⟨⟨12, by decide, by decide, rfl⟩, by decide, by decide⟩
 
+/-! the theorems applied to `exLog` / `exRun`, every hypothesis discharged -/
+set_option maxRecDepth 100000 in
+theorem exLog_shape : shapeCheck exLog = true := by decide
+set_option maxRecDepth 100000 in
+theorem exRun_ok : (run exRun).err = none := by decide
+theorem exRun_valid : ValidCfg exRun := ⟨⟨12, by decide, by decide, rfl⟩, by decide, by decide⟩
+set_option maxRecDepth 100000 in
+theorem exRun_size : (preFinal exRun).1.size < 2 ^ 64 := by decide
+
+set_option maxRecDepth 100000 in
+example := shape_prefix_rejected exLog exLog_shape 5 (by decide)
+set_option maxRecDepth 100000 in
+example := shape_prefix_rejected exLog exLog_shape 3 (by decide)
+set_option maxRecDepth 100000 in
+example := shape_suffix_complete exLog exLog_shape 6 (by decide)
+example := shape_crash_safe exLog exLog_shape
+set_option maxRecDepth 100000 in
+example : ∃ sup, superInit exRun.blockSize exRun.mtime exRun.compId = .ok sup := by
+  have hk : (superInit exRun.blockSize exRun.mtime exRun.compId).toBool = true := by decide
+  cases h : superInit exRun.blockSize exRun.mtime exRun.compId with
+  | error e => rw [h] at hk; cases hk
+  | ok sup =>
+    have _ := super_region_invariant exRun sup h
+    have _ := provisional_fields _ _ _ sup h
+    exact ⟨sup, rfl⟩
+set_option maxRecDepth 100000 in
+example := prefix_rejected exRun 15 (by decide)
+set_option maxRecDepth 100000 in
+example := prefix_rejected exRun 7 (by decide)
+set_option maxRecDepth 100000 in
+example := suffix_complete exRun exRun_ok 16 (by decide)
+set_option maxRecDepth 100000 in
+example := suffix_accepted exRun exRun_valid exRun_ok exRun_size 16 (by decide)
+example := crash_safe exRun exRun_ok
+example := final_super_last exRun exRun_valid exRun_ok exRun_size
+example := run_shape exRun exRun_ok exRun_size
+
 end Sqfs.C14
